@@ -9,7 +9,7 @@ PROPERTY = "C19"
 RULE = ("Random bond graphs of 2-14 atoms without three-membered rings in which every atom has a bond: trees, trees with "
         "ring closures, ring assemblies, metal nodes of degree 4-8, disconnected unions; bonds listed in random order "
         "and direction. UFF types drawn from the whole table or from a small pool (forces shared types); exclusion set "
-        "empty / random / a whole fragment. Oracles: brute-force enumeration of angles and dihedrals (multiset modulo "
+        "empty / random / a whole fragment / a few atoms of the fragment plus 18-40 atoms scattered over a host of 1800-3200 atoms without terms. Oracles: brute-force enumeration of angles and dihedrals (multiset modulo "
         "reversal); two terms share a type iff their reversal-canonical UFF sequences (dihedrals: plus the number of "
         "torsions about the central bond, counted before exclusion) are equal; each type's coefficient line equals the "
         "reference UFF form to printed precision; undefined torsions dropped; excluded terms dropped; per-term "
